@@ -272,6 +272,13 @@ def check_triple(acc, S, P, ds, rng, tmp):
         hints = {k: str(f.outer_type_)[:40] for k, f in S.__fields__.items() if k in sa["__model__"] or k in sb["__model__"]}
         return kind, f"{name}: {detail} | a={json.dumps(sa, default=str)[:300]} b={json.dumps(sb, default=str)[:300]} c={json.dumps(sc, default=str)[:200]} (obtained by {hows}; field types {hints})"
 
+    # harvesters may complete (and thereby validate) their own output before it is merged
+    for x in parts:
+        try:
+            x.from_partial()
+            acc.count("operands_completed_before_merge")
+        except Exception:
+            pass
     # identities
     for side, r in (("left", do_merge(e, a, False)), ("right", do_merge(a, e, False))):
         acc.count("law.identity")
@@ -325,6 +332,23 @@ def check_triple(acc, S, P, ds, rng, tmp):
         if left[0] == "ok" and strip(struct(left[1])) != strip(struct(right[1])):
             gl, gr = strip(struct(left[1])), strip(struct(right[1]))
             return bad("associativity", f"(a.b).c != a.(b.c) (allow_overwrite={ow}) at {deep_diff(gl, gr)}")
+    # completing a merge result gives an object that carries exactly what the merged partial carries
+    rab = do_merge(a, b, True)
+    if rab[0] == "ok":
+        try:
+            full = rab[1].from_partial()
+        except Exception:
+            full = None
+        if full is not None:
+            acc.count("law.completion_of_merge_result")
+            back = strip(struct(P.to_partial(full)))
+            want = strip(struct(rab[1]))
+            lost = {k: v for k, v in want.items() if v not in (None, [], {"__set__": []}) and back.get(k) in (None,) }
+            if lost:
+                return bad("completion-loses-merged-values", f"from_partial() of the merge result lacks {sorted(lost)[:4]} (e.g. {str(list(lost.values())[0])[:80]}) that the merged partial holds")
+            for k, v in want.items():
+                if isinstance(v, list) and isinstance(back.get(k), list) and len(back[k]) != len(v):
+                    return bad("completion-loses-merged-values", f"from_partial() of the merge result has {len(back[k])} items in {k}, the merged partial {len(v)}")
     # n-ary merge = fold
     acc.count("law.fold")
     try:
@@ -444,7 +468,7 @@ def run_unit(u, acc):
 
 def inconclusive(cov):
     c = cov["counters"]
-    return [f"monitor counter {k} is zero" for k in ("law.identity", "law.binary", "law.associativity", "law.to_from_partial", "contract_evaluations",
+    return [f"monitor counter {k} is zero" for k in ("law.identity", "law.binary", "law.associativity", "law.to_from_partial", "law.completion_of_merge_result", "contract_evaluations",
                                                   "harvest_pipelines", "partials_by.yaml", "partials_by.to_partial", "partials_by.loader", "classes.generated-chain", "nested_subclass_positions") if not c.get(k)]
 
 
